@@ -171,6 +171,7 @@ func (g *c03Gen) seq(lineage string, depth, n int) string {
 }
 
 type c03Handler struct {
+	delay   bool // take a moment to decide (runs that share the host process with other traced runs)
 	mu      sync.Mutex
 	byID    map[int]string
 	byName  map[string]string
@@ -189,6 +190,9 @@ func c03Act(a string) ptracer.TraceAction {
 }
 
 func (h *c03Handler) path(class, p string) ptracer.TraceAction {
+	if h.delay {
+		time.Sleep(time.Millisecond)
+	}
 	h.mu.Lock()
 	defer h.mu.Unlock()
 	h.asked = append(h.asked, class+" "+p)
@@ -204,6 +208,9 @@ func (h *c03Handler) CheckRead(p string) ptracer.TraceAction  { return h.path("R
 func (h *c03Handler) CheckWrite(p string) ptracer.TraceAction { return h.path("W", p) }
 func (h *c03Handler) CheckStat(p string) ptracer.TraceAction  { return h.path("S", p) }
 func (h *c03Handler) CheckSyscall(n string) ptracer.TraceAction {
+	if h.delay {
+		time.Sleep(time.Millisecond)
+	}
 	h.mu.Lock()
 	defer h.mu.Unlock()
 	h.asked = append(h.asked, "C "+n)
@@ -246,32 +253,65 @@ func runC03(res *Result, d *Driver, tier string, seed uint64) {
 		nB = 2500
 	}
 	filter := c03BuildFilter()
-	for i := 0; i < nB; i++ {
-		work, err := os.MkdirTemp("", "verif-c03-")
-		if err != nil {
-			fatal("mkdtemp: %v", err)
+	// most programs are run while two other traced programs run in the same host process (three tracers at work at
+	// once, each handler taking about a millisecond to decide): a verdict must reach the call it was computed for
+	type c03Item struct {
+		work, script, model string
+		g                   *c03Gen
+		h                   *c03Handler
+		mops                []string
+		nontrivial          bool
+		r                   runner.Result
+		out                 string
+	}
+	for i := 0; i < nB; {
+		k := 1
+		if i%4 != 0 {
+			k = 3
 		}
-		work, _ = filepath.EvalSymlinks(work)
-		g := &c03Gen{rng: rng, nameAct: map[string]string{}}
-		for _, n := range c03NameTraced {
-			g.nameAct[n] = []string{"a", "a", "b", "b", "k"}[rng.Intn(5)]
-			if g.nameAct[n] == "k" && !rng.Chance(30) {
-				g.nameAct[n] = "b"
+		var items []*c03Item
+		for j := 0; j < k; j++ {
+			work, err := os.MkdirTemp("", "verif-c03-")
+			if err != nil {
+				fatal("mkdtemp: %v", err)
 			}
-		}
-		script := g.seq("r", 0, 2+rng.Intn(5)) + "; exit 0"
-		h := &c03Handler{byID: map[int]string{}, byName: g.nameAct, workdir: work}
-		var mops []string
-		nontrivial := false
-		for _, o := range g.ops {
-			h.byID[o.id] = o.act
-			mops = append(mops, fmt.Sprintf("%s:%d:%s:%s", o.lineage, o.id, o.fres(), o.act))
-			if o.act != "a" || o.lineage != "r" || o.kind == "fkill" {
-				nontrivial = true
+			work, _ = filepath.EvalSymlinks(work)
+			g := &c03Gen{rng: rng, nameAct: map[string]string{}}
+			for _, n := range c03NameTraced {
+				g.nameAct[n] = []string{"a", "a", "b", "b", "k"}[rng.Intn(5)]
+				if g.nameAct[n] == "k" && !rng.Chance(30) {
+					g.nameAct[n] = "b"
+				}
 			}
+			script := g.seq("r", 0, 2+rng.Intn(5)) + "; exit 0"
+			h := &c03Handler{byID: map[int]string{}, byName: g.nameAct, workdir: work}
+			var mops []string
+			nontrivial := false
+			for _, o := range g.ops {
+				h.byID[o.id] = o.act
+				mops = append(mops, fmt.Sprintf("%s:%d:%s:%s", o.lineage, o.id, o.fres(), o.act))
+				if o.act != "a" || o.lineage != "r" || o.kind == "fkill" {
+					nontrivial = true
+				}
+			}
+			h.delay = k > 1
+			items = append(items, &c03Item{work: work, script: script, model: d.Ask("c03.run " + strings.Join(mops, ",")), g: g, h: h, mops: mops, nontrivial: nontrivial})
 		}
-		model := d.Ask("c03.run " + strings.Join(mops, ","))
-		r, out := runPtraceProbe(RunSpec{Script: script, Filter: filter, Handler: h, WorkDir: work})
+		var wg sync.WaitGroup
+		for _, it := range items {
+			wg.Add(1)
+			go func(it *c03Item) {
+				defer wg.Done()
+				it.r, it.out = runPtraceProbe(RunSpec{Script: it.script, Filter: filter, Handler: it.h, WorkDir: it.work})
+			}(it)
+		}
+		wg.Wait()
+		i += k
+		for _, it := range items {
+		work, script, model, g, mops, nontrivial, r, out := it.work, it.script, it.model, it.g, it.mops, it.nontrivial, it.r, it.out
+		if k > 1 {
+			script = "[with two other traced runs in the process] " + script
+		}
 		// what the model expects the program to have recorded
 		mEffects, mRets, mStatus := map[int]bool{}, map[int]string{}, ""
 		for _, f := range strings.Fields(model) {
@@ -354,6 +394,7 @@ func runC03(res *Result, d *Driver, tier string, seed uint64) {
 			res.Mismatch(Mismatch{Kind: "oracle", What: "traced run vs Model.Verdict.runOps: values seen by the program, directories created, verdict (C03_effects_were_allowed / C03_kill_ends_run / C03_ban_seen / C03_allowed_executes)", Input: script + " || decisions " + strings.Join(mops, ","), Impl: impl, Model: want, Oracle: oracle, Key: c03Key(g.ops, gotStatus, mStatus)})
 		}
 		os.RemoveAll(work)
+		}
 	}
 	// a killed call must not execute even when the tracee gets the CPU the moment it is resumed: tracer and tracee share
 	// one CPU here, so that a tracee resumed before it is killed runs its syscall first
